@@ -128,7 +128,7 @@ def dust_rows(b):
 
 def judge(out, b, res, mres, cfg_m, stats):
     """compare implementation / oracle / model for one bundle"""
-    case = {k: b[k] for k in ("lay", "assets", "parse", "cases", "rows", "rowmaps", "order", "exchanges", "holders", "k")}
+    case = {k: b[k] for k in ("lay", "assets", "parse", "cases", "rows", "rowmaps", "order", "exchanges", "holders", "k", "window", "rows_extra") if k in b}
     if "rows_extra" in b:
         case["rows_extra"] = b["rows_extra"]
     imp = res["impl"]
